@@ -3845,7 +3845,9 @@ getMatchingRedundancyGroup(CS104_Slave self, char* ipAddrStr)
 static void
 handleConnectionsThreadless(CS104_Slave self)
 {
-    if ((self->maxOpenConnections < 1) || (self->openConnections < self->maxOpenConnections))
+    /* no listening socket before CS104_Slave_startThreadless and after CS104_Slave_stopThreadless */
+    if ((self->serverSocket != NULL) &&
+            ((self->maxOpenConnections < 1) || (self->openConnections < self->maxOpenConnections)))
     {
         Socket newSocket = ServerSocket_accept(self->serverSocket);
 
